@@ -56,4 +56,137 @@ size_t vg_K;
 #define VG_PATH_OK(S, N) \
 	((N) < VG_PB && (S)[N] == '\0' && VG_NO_NUL_BEFORE(S, N) && VG_CLEAN_RANGE(S, VG_F(S), N))
 
+#include "lha_file_header.h"
+/* ================================================================= the header block (C08, C12, C13) ==
+   A header is ONE heap block: struct LHAFileHeader immediately followed by the raw header bytes;
+   raw_data == (uint8_t *)(header + 1).  extend_raw_data reallocs it (it may move: functions take
+   LHAFileHeader **).
+   Model: the block is a heap object of the CONSTANT physical size VG_BLK_SIZE = sizeof(LHAFileHeader) +
+   VG_RAW_MAX; ghost vg_cap (<= VG_RAW_MAX) is the number of raw bytes the real block has (maintained by woven
+   ghost assignments where the code sizes the block); raw_data_len == vg_cap except after a failed read.
+   Physical bounds are CBMC's pointer checks; the LOGICAL bounds (no access at or beyond raw_data_len / vg_cap)
+   are explicit obligations: VG_CHK_RAW ghost assertions at the direct RAW_DATA uses and VG_IN_RAW assertions in
+   the stubs that receive pointers into the block (lha_decode_uint16/32, lha_ext_header_decode, lha_crc16_buf,
+   lha_input_stream_read).  The realloc stub asserts the C13 growth cap for every request and then only
+   follows requests that fit VG_BLK_SIZE (documented bound of the block-level groups). */
+#ifndef VG_RAW_MAX
+#define VG_RAW_MAX 320
+#endif
+struct vg_blk_t { LHAFileHeader h; uint8_t raw[VG_RAW_MAX]; };
+#define VG_BLK_SIZE (sizeof(LHAFileHeader) + VG_RAW_MAX)
+size_t vg_cap;
+LHAFileHeader *vg_blk;    /* ghost: the current header block (base pointer), for the stream stub */
+#define VG_GROW_MAX (1024u * 1024u)           /* == LEVEL_3_MAX_HEADER_LEN, checked in h_consts */
+#define VG_RAW(hp) ((uint8_t *) ((hp) + 1))
+/* p points into a header block (no other object of the model has this size) */
+#define VG_IN_BLOCK(p) (__CPROVER_OBJECT_SIZE(p) == VG_BLK_SIZE)
+/* [p, p+n) lies inside the raw bytes the real block has */
+#define VG_IN_RAW(p, n) \
+	(!VG_IN_BLOCK(p) || (VG_OFF(p) >= sizeof(LHAFileHeader) && (size_t) (n) <= vg_cap && \
+	                     VG_OFF(p) - sizeof(LHAFileHeader) <= vg_cap - (size_t) (n)))
+/* ghost obligation before a direct RAW_DATA(header, off) access of n bytes */
+#define VG_CHK_RAW(hp, off, n) \
+	__CPROVER_assert((size_t) (n) <= (hp)->raw_data_len && (size_t) (off) <= (hp)->raw_data_len - (size_t) (n), \
+	                 "C08 RAW_DATA access lies inside raw_data_len")
+
+/* ghost record of the latest checksum / CRC evaluation (C12) */
+const uint8_t *vg_sum_ptr; size_t vg_sum_len; unsigned vg_sum8;
+const uint8_t *vg_crc_buf; size_t vg_crc_len; uint16_t vg_crc_init, vg_crc_out;
+int vg_crc_calls;
+/* ghost: total extended-header bytes read for a level-1 header */
+size_t vg_ext_total;
+/* Skolem index into the raw bytes (arbitrary, never assigned) */
+size_t vg_R;
+
+/* little-endian values as sums (format description), independent of the code's shifts */
+#define VG_LE16(p) ((unsigned) ((p)[0] + 256u * (p)[1]))
+#define VG_LE32(p) ((uint32_t) ((p)[0] + 256u * (p)[1] + 65536u * (p)[2] + 16777216u * (uint32_t) (p)[3]))
+
+/* a string field that this file only ever frees (or that is not yet a padded string): NULL or a live,
+   freeable heap block */
+#define VG_FREEABLE_STR(f) ((f) == NULL || (__CPROVER_is_fresh((f), 1) && __CPROVER_is_freeable(f)))
+
+/* ---- contract building blocks for functions taking LHAFileHeader **H ---------------------------------
+   (each pointer fact in its own clause, pointer clauses first: engine/README.md pitfalls) */
+#define VG_REQ_BLOCK(H) \
+	__CPROVER_requires(22 <= vg_cap && vg_cap <= VG_RAW_MAX) \
+	__CPROVER_requires(__CPROVER_is_fresh(H, sizeof(LHAFileHeader *))) \
+	__CPROVER_requires(__CPROVER_is_fresh(*(H), VG_BLK_SIZE)) \
+	__CPROVER_requires(__CPROVER_pointer_equals((*(H))->raw_data, VG_RAW(*(H)))) \
+	__CPROVER_requires(__CPROVER_pointer_equals(vg_blk, *(H))) \
+	__CPROVER_requires((*(H))->raw_data_len == vg_cap)
+/* the five string fields are NULL or live freeable blocks (this file frees them in lha_file_header_free) */
+#define VG_REQ_STRS(H) \
+	__CPROVER_requires(VG_FREEABLE_STR((*(H))->path)) \
+	__CPROVER_requires(VG_FREEABLE_STR((*(H))->filename)) \
+	__CPROVER_requires(VG_FREEABLE_STR((*(H))->symlink_target)) \
+	__CPROVER_requires(VG_FREEABLE_STR((*(H))->unix_username)) \
+	__CPROVER_requires(VG_FREEABLE_STR((*(H))->unix_group))
+/* success: *H is a block with vg_cap raw bytes, raw_data behind the struct, all vg_cap raw bytes in use */
+#define VG_BLOCK_OK(H) \
+	(__CPROVER_is_fresh(*(H), VG_BLK_SIZE) && 22 <= vg_cap && vg_cap <= VG_RAW_MAX && \
+	 __CPROVER_pointer_equals((*(H))->raw_data, VG_RAW(*(H))) && (*(H))->raw_data_len == vg_cap && vg_blk == *(H))
+/* ghost: number of times the block has moved (incremented where extend_raw_data installs the new block) */
+size_t vg_moves;
+/* after a step that may or may not have moved the block: it is the old one (untouched by free) or a new one */
+#define VG_BLOCK_LIVE(H) \
+	(vg_moves >= __CPROVER_old(vg_moves) && \
+	 (vg_moves == __CPROVER_old(vg_moves) \
+	   ? __CPROVER_pointer_equals(*(H), __CPROVER_old(*(H))) \
+	   : (__CPROVER_is_fresh(*(H), VG_BLK_SIZE) && __CPROVER_is_freeable(*(H)))) && \
+	 vg_blk == *(H))
+#define VG_BLOCK_AFTER(H) \
+	(VG_BLOCK_LIVE(H) && __CPROVER_pointer_equals((*(H))->raw_data, VG_RAW(*(H))) && \
+	 22 <= vg_cap && vg_cap <= VG_RAW_MAX && (*(H))->raw_data_len <= vg_cap)
+/* a field F of the block has the value it had on entry */
+#define VG_SAME(H, F) ((*(H))->F == __CPROVER_old((*(H))->F))
+#define VG_SAME_PTR(H, F) \
+	(__CPROVER_old((*(H))->F) == NULL ? (*(H))->F == NULL : __CPROVER_pointer_equals((*(H))->F, __CPROVER_old((*(H))->F)))
+#define VG_SAME_STRS(H) \
+	(VG_SAME_PTR(H, path) && VG_SAME_PTR(H, filename) && VG_SAME_PTR(H, symlink_target) && \
+	 VG_SAME_PTR(H, unix_username) && VG_SAME_PTR(H, unix_group))
+#define VG_SAME_METHOD(H) \
+	(VG_SAME(H, compress_method[0]) && VG_SAME(H, compress_method[1]) && VG_SAME(H, compress_method[2]) && \
+	 VG_SAME(H, compress_method[3]) && VG_SAME(H, compress_method[4]) && VG_SAME(H, compress_method[5]))
+#define VG_LOOP_SAME1(hp, i) ((hp)->compress_method[i] == __CPROVER_loop_entry((hp)->compress_method[i]))
+#define VG_LOOP_SAME_METHOD(hp) \
+	(VG_LOOP_SAME1(hp, 0) && VG_LOOP_SAME1(hp, 1) && VG_LOOP_SAME1(hp, 2) && VG_LOOP_SAME1(hp, 3) && VG_LOOP_SAME1(hp, 4) && VG_LOOP_SAME1(hp, 5))
+#define VG_SAME_SCALARS(H) \
+	(VG_SAME(H, _refcount) && VG_SAME(H, _next) && VG_SAME_METHOD(H) && VG_SAME(H, compressed_length) && \
+	 VG_SAME(H, length) && VG_SAME(H, header_level) && VG_SAME(H, os_type) && VG_SAME(H, crc) && \
+	 VG_SAME(H, timestamp) && VG_SAME(H, extra_flags) && VG_SAME(H, unix_perms) && VG_SAME(H, unix_uid) && \
+	 VG_SAME(H, unix_gid) && VG_SAME(H, os9_perms) && VG_SAME(H, common_crc) && VG_SAME(H, win_creation_time) && \
+	 VG_SAME(H, win_modification_time) && VG_SAME(H, win_access_time))
+/* the first 22 raw bytes (COMMON_HEADER_LEN, the part every level reads before it extends the block) and the
+   raw byte at the arbitrary index vg_R (if it existed on entry) are the ones the block had on entry */
+#define VG_SAME_RAW1(H, i) (VG_RAW(*(H))[i] == __CPROVER_old(VG_RAW(*(H))[i]))
+#define VG_SAME_RAW22(H) \
+	(VG_SAME_RAW1(H, 0) && VG_SAME_RAW1(H, 1) && VG_SAME_RAW1(H, 2) && VG_SAME_RAW1(H, 3) && VG_SAME_RAW1(H, 4) && \
+	 VG_SAME_RAW1(H, 5) && VG_SAME_RAW1(H, 6) && VG_SAME_RAW1(H, 7) && VG_SAME_RAW1(H, 8) && VG_SAME_RAW1(H, 9) && \
+	 VG_SAME_RAW1(H, 10) && VG_SAME_RAW1(H, 11) && VG_SAME_RAW1(H, 12) && VG_SAME_RAW1(H, 13) && VG_SAME_RAW1(H, 14) && \
+	 VG_SAME_RAW1(H, 15) && VG_SAME_RAW1(H, 16) && VG_SAME_RAW1(H, 17) && VG_SAME_RAW1(H, 18) && VG_SAME_RAW1(H, 19) && \
+	 VG_SAME_RAW1(H, 20) && VG_SAME_RAW1(H, 21))
+#define VG_SAME_RAW(H) \
+	(VG_SAME_RAW22(H) && (vg_R < __CPROVER_old(vg_cap) ==> VG_RAW(*(H))[vg_R] == __CPROVER_old(VG_RAW(*(H))[vg_R])))
+
+/* all five string fields NULL (a header that has just been allocated) */
+#define VG_NO_STRS(hp) ((hp)->path == NULL && (hp)->filename == NULL && (hp)->symlink_target == NULL && \
+                        (hp)->unix_username == NULL && (hp)->unix_group == NULL)
+/* method field == raw[2..7) + NUL; sizes == LE32 at raw+7 / raw+11 (common to all levels, C05) */
+#define VG_COMMON_FIELDS(hp) \
+	((hp)->compress_method[0] == (char) VG_RAW(hp)[2] && (hp)->compress_method[1] == (char) VG_RAW(hp)[3] && \
+	 (hp)->compress_method[2] == (char) VG_RAW(hp)[4] && (hp)->compress_method[3] == (char) VG_RAW(hp)[5] && \
+	 (hp)->compress_method[4] == (char) VG_RAW(hp)[6] && (hp)->compress_method[5] == '\0' && \
+	 (hp)->compressed_length == VG_LE32(VG_RAW(hp) + 7) && (hp)->length == VG_LE32(VG_RAW(hp) + 11))
+
+/* path / filename of a header as this file's later stages need them: NULL, or a live padded string block
+   (for the file name: without '/', C11) */
+#define VG_PATH_STR(f) ((f) == NULL || (__CPROVER_is_fresh((f), VG_PB) && __CPROVER_is_freeable(f) && VG_STR(f) && VG_IS_LEN(f, vg_plen)))
+#define VG_NAME_STR(f) ((f) == NULL || (__CPROVER_is_fresh((f), VG_PB) && __CPROVER_is_freeable(f) && VG_STR(f) && VG_NAME_OK(f, vg_flen)))
+/* a string field after a step that may have replaced it (old block freed, new heap string) or left it alone */
+#define VG_STR_OUT(f, sz) \
+	((__CPROVER_old(f) != NULL && !__CPROVER_was_freed(__CPROVER_old(f))) \
+	   ? __CPROVER_pointer_equals((f), __CPROVER_old(f)) \
+	   : ((__CPROVER_old(f) == NULL && (f) == NULL) || (__CPROVER_is_fresh((f), (sz)) && __CPROVER_is_freeable(f))))
+
 #endif
